@@ -225,3 +225,18 @@ Theorem C14_plugin_name_canonical :
   forall d c p p', canon p = canon p' -> dis_disabled (dis_add d c (Some p)) c p' = true.
 Proof. exact plugin_name_canonical. Qed.
 Print Assumptions C14_plugin_name_canonical.
+
+(* What `disable <plugin> <command>` / `disable <command>` leave in supybot.commands.disabled is, read back at the next
+   start, an entry that disables exactly that command in exactly that plugin / everywhere (names compared after
+   canonicalName) -- for every name made of characters canonicalName keeps and without '.', i.e. any Python
+   identifier without '_'.  (One entry; the statement for the whole list after an arbitrary history is not proved.) *)
+Theorem C14_restart_entry_plugin :
+  forall p c c' p', simple p = true -> simple c = true ->
+  entry_disables (conf_key (Some p) c) c' p' = andb (seq_eqb (canon c') (canon c)) (seq_eqb (canon p') (canon p)).
+Proof. exact restart_entry_plugin. Qed.
+Print Assumptions C14_restart_entry_plugin.
+
+Theorem C14_restart_entry_all :
+  forall c c' p', simple c = true -> entry_disables (conf_key None c) c' p' = seq_eqb (canon c') (canon c).
+Proof. exact restart_entry_all. Qed.
+Print Assumptions C14_restart_entry_all.
